@@ -1,3 +1,5 @@
 import KcpVerif.Generated
 import KcpVerif.Model.Ring
 import KcpVerif.Props.C20
+import KcpVerif.Model.Crc32
+import KcpVerif.Model.SessIn
